@@ -91,7 +91,9 @@ def build_grid(case):
     width = lead + ncols
     grid = [[None] * width for _ in range(case.get("lead_blank", 0))]
     title_row = len(grid)
-    grid.append([None] * lead + [c["title"] if c["title"] != "" else None for c in case["columns"]])
+    # a title cell holds a str, or (c["raw"]) a number / boolean whose str() is the title
+    grid.append([None] * lead + [c["raw"] if "raw" in c else (c["title"] if c["title"] != "" else None)
+                                 for c in case["columns"]])
     for r in case["rows"]:
         grid.append([None] * lead + list(r))
     for r in case.get("tail", []):
@@ -481,6 +483,12 @@ def st_case(draw):
         i, j = draw(st.integers(0, n_unknown - 1)), draw(st.integers(0, n_unknown - 1))
         if i != j:
             unknown[j]["title"] = unknown[i]["title"]        # the same title twice inside the range
+    if n_unknown and draw(st.integers(0, 3)) == 0:
+        # title cells that hold numbers / booleans, not strings (rounds 0, 1, 2 ...; flags False / True)
+        raws = draw(st.sampled_from([[0, 1, 2, 3], [False, True, 2, 3], [0.0, 0.5, 1, 2], [3, 2, 1, 0], [-1, 0, 1, 2]]))
+        for u, raw in zip(unknown, raws):
+            u["raw"] = raw
+            u["title"] = str(raw)
     pos = draw(st.integers(0, len(cols)))
     cols = cols[:pos] + unknown + cols[pos:]
     # blank-titled columns (not inside the unknown run when a range exists)
@@ -511,6 +519,14 @@ def st_case(draw):
                    "col": c["title"].strip()} for i, c in enumerate(pick)]
         for s_, c in zip(second, pick):
             s_["conv"] = c["conv"]
+        # ... and columns that only the second object knows: the last / first column of the unknown run (the ranged
+        # attribute of the first object ends before it), a side-note column
+        own = [c for i, c in enumerate(cols) if c["attr"] is None and c["title"].strip() and
+               [d["title"].strip() for d in cols].count(c["title"].strip()) == 1 and
+               (c["title"].startswith("V") or (i in (pos, pos + n_unknown - 1) and (rattr is None or n_unknown >= 2)))]
+        if own and draw(st.booleans()):
+            c = draw(st.sampled_from(own))
+            second.append({"name": "x%d" % len(second), "kind": "simple", "conv": c["conv"], "col": c["title"].strip()})
     end = draw(st.sampled_from(["blank all", "blank all", "blank first"]))
     ladder = draw(st.booleans())
     lead_cols = 0 if end == "blank first" else draw(st.sampled_from([0, 0, 0, 1, 2]))
@@ -557,7 +573,7 @@ def st_case(draw):
         tail = [[None] * width] + [[draw(st.sampled_from([None, "junk", 3])) for _ in range(width)]
                                    for _ in range(draw(st.integers(0, 2)))]
     return {"title": draw(st.sampled_from(["Sheet1", "My Sheet", "s"])), "lead_blank": draw(st.integers(0, 3)),
-            "lead_cols": lead_cols, "columns": [{"title": c["title"]} for c in cols], "attrs": attrs, "rows": rows,
+            "lead_cols": lead_cols, "columns": [dict({"title": c["title"]}, **({"raw": c["raw"]} if "raw" in c else {})) for c in cols], "attrs": attrs, "rows": rows,
             "end": end, "ladder": ladder, "tail": tail, "entry": entry, "second_reader": second,
             "ladder_info": sorted(ladder_info)}
 
